@@ -10,7 +10,7 @@
 From ClapModel Require Import Base.Bytes Base.Machine.
 From ClapModel Require Import Parse.Cmd Parse.Build Parse.Valid Parse.Matcher Parse.Errors Parse.Parser ParseProofs.Actions ParseProofs.ActionsLoop ParseProofs.ActionsTokens ParseProofs.ActionsTop ParseProofs.ActionsWide ParseProofs.ActionsWideTop ParseProofs.ActionsGraph ParseProofs.ActionsRequired ParseProofs.ActionsChain.
 From ClapModel Require ParseProofs.Chain ParseProofs.Globals ParseProofs.UnparseTree.
-From ClapModel Require Gen.ActionTables ParseProofs.TablesActions.
+From ClapModel Require Gen.ActionTables ParseProofs.TablesActions Gen.SettingsTables ParseProofs.TablesSettings.
 From Coq Require Import ZArith.
 Open Scope N_scope.
 
@@ -853,3 +853,17 @@ Theorem C07_gate_implies_source : forall a, assert_arg a = true ->
     /\ (forall t, ty = Some t -> exists vp, a_vp a = Some vp /\ vp_type vp = t).
 Proof. exact TablesActions.model_gate_implies_source. Qed.
 Print Assumptions C07_gate_implies_source.
+
+(** `args_override_self` (read by the Set-like branches of [react]: [C07_set_repeat_conflict]) is a GLOBAL setting in the
+    source: set on a command it holds there and at every level below ([propagate_chain]: each level propagated from the
+    one above); and the propagation step of the model is the one the source's table defines (Gen/SettingsTables.v) *)
+Theorem C07_args_override_self_global : forall p p' scs,
+  TablesSettings.spec_apply TablesSettings.n_args_override_self p = Some p' -> scs <> [] ->
+  is_set s_args_override_self p' = true /\ is_set s_args_override_self (TablesSettings.propagate_chain p' scs) = true.
+Proof. exact TablesSettings.args_override_self_global. Qed.
+Print Assumptions C07_args_override_self_global.
+
+Theorem C07_settings_propagate_table : forall p sc,
+  TablesSettings.tbl_propagate p sc = Some (propagate_subcommand p sc).
+Proof. exact TablesSettings.propagate_table. Qed.
+Print Assumptions C07_settings_propagate_table.
